@@ -32,8 +32,8 @@ func TestZZBoundedC15(t *testing.T) {
 		}
 	}
 	gen("", 3)
-	gaps := []string{" ", "", "  ", "\n", " /* c */ "}
-	users := []string{"u", `"u v"`}
+	gaps := []string{" ", "", "  ", "\n", " /* c */ ", " /* c\n d */ "}
+	users := []string{"u", `"u v"`, `"a\"=b"`}
 	total, valid := 0, 0
 	fails := map[string]int{}
 	first := map[string]string{}
@@ -45,6 +45,10 @@ func TestZZBoundedC15(t *testing.T) {
 					texts := []string{
 						"CREATE USER " + u + " WITH PASSWORD" + g2 + q,
 						"SET PASSWORD FOR " + u + g1 + "=" + g2 + q,
+					}
+					if g1 == " " && (g2 == " " || g2 == "") {
+						// keyword case does not matter to the parser
+						texts = append(texts, "Create User "+u+" With Password"+g2+q, "set password for "+u+g1+"="+g2+q)
 					}
 					for _, base := range texts {
 						for _, text := range []string{base, base + "; SHOW DATABASES"} {
